@@ -452,6 +452,15 @@ impl ExactSizeIterator for OpaquePoolIterator<'_> {
 
 impl FusedIterator for OpaquePoolIterator<'_> {}
 
+#[cfg(folo_verif)]
+impl OpaquePool {
+    /// Verification hook: read-only internal consistency probe.
+    #[doc(hidden)]
+    pub fn __verif_check(&self) -> Result<(), String> {
+        self.inner.lock().expect(NEVER_POISONED).__verif_check()
+    }
+}
+
 #[cfg(test)]
 #[cfg_attr(coverage_nightly, coverage(off))]
 mod tests {
